@@ -94,6 +94,15 @@ def gen_case(rng):
     elif r < 0.14:
         col = [ud(rng, lo, hi, 4) for _ in t["io"]]
         t[z] = [list(col) for _ in t["vi"]]                                             # depends on io only: all rows equal
+    if z == "eff" and rng.random() < 0.12:
+        # entries exactly at the end of the documented range (0 < eff <= 1): an ideal stage at some operating points, or everywhere
+        if rng.random() < 0.3:
+            t[z] = [[rng.choice([1.0, 1]) for _ in row] for row in t[z]]
+        else:
+            for row in t[z]:
+                for k in range(len(row)):
+                    if rng.random() < 0.3:
+                        row[k] = 1.0
     if rng.random() < 0.1 and 0 < t["io"][0] < t["io"][1]:
         t["io"][0] = -t["io"][0]               # a negative sign on the first knot keeps the axis increasing in magnitude
     if nvi > 1 and rng.random() < 0.1:
